@@ -100,17 +100,19 @@ func TestVerifC13(t *testing.T) {
 		out.emit(r)
 	}
 	// routing of other paths
-	for _, p := range []string{"/", "/a/b", "/a//b", "/a/../b", "/a/./b", "//double", "/verifshimx/y", "/verifshim", "/x/verifshim/open", "/a%2F%2Fb", "/a/b/", "/a/b//"} {
-		mu.Lock()
-		wrappedSeen = nil
-		mu.Unlock()
-		req := httptest.NewRequest("GET", "http://agent.local"+p+"?q=1", nil)
-		rec := httptest.NewRecorder()
-		h.ServeHTTP(rec, req)
-		mu.Lock()
-		ws := append([]string(nil), wrappedSeen...)
-		mu.Unlock()
-		out.emit(map[string]interface{}{"kind": "route", "path": p, "status": rec.Code, "location": rec.Header().Get("Location"), "wrapped_saw": ws})
+	for _, method := range []string{"GET", "POST", "PUT", "PATCH", "DELETE", "HEAD", "OPTIONS"} {
+		for _, p := range []string{"/", "/a/b", "/a//b", "/a/../b", "/a/./b", "//double", "/verifshimx/y", "/verifshim", "/x/verifshim/open", "/a%2F%2Fb", "/a/b/", "/a/b//", "/api/contents/dir/", "/api/contents/a%2Fb/", "/a%2Fb"} {
+			mu.Lock()
+			wrappedSeen = nil
+			mu.Unlock()
+			req := httptest.NewRequest(method, "http://agent.local"+p+"?q=1", nil)
+			rec := httptest.NewRecorder()
+			h.ServeHTTP(rec, req)
+			mu.Lock()
+			ws := append([]string(nil), wrappedSeen...)
+			mu.Unlock()
+			out.emit(map[string]interface{}{"kind": "route", "method": method, "path": p, "status": rec.Code, "location": rec.Header().Get("Location"), "wrapped_saw": ws})
+		}
 	}
 	// request bodies on paths outside the shim prefix: any size, with and without a declared length
 	for _, size := range []int{0, 1, 1000, 1 << 20, 1<<20 + 1, 3 << 20} {
